@@ -56,10 +56,10 @@ func (b Base) RenderParam(e *expr.Expression) (s string, params []any, err error
 	}
 
 	// if we are in a regular expression we need to convert the * to % and ? to _
-	if e.Op == expr.Like {
-		rval := rparams[0].(string)
+	if e.Op == expr.Like && len(rparams) == 1 {
+		rval, isStr := rparams[0].(string)
 		// keep the regexp intact if it is a // regexp
-		if len(rval) < 4 || rval[0] != '/' || rval[len(rval)-1] != '/' {
+		if isStr && (len(rval) < 4 || rval[0] != '/' || rval[len(rval)-1] != '/') {
 			rval = strings.ReplaceAll(rval, "*", "%")
 			rval = strings.ReplaceAll(rval, "?", "_")
 			rparams[0] = rval
@@ -233,11 +233,11 @@ func (b Base) serializeParams(in any) (s string, params []any, err error) {
 		}
 		return strings.Join(strs, ", "), params, nil
 	case *expr.RangeBoundary:
-		min, minParams, err := b.serializeParams(v.Min)
+		min, minParams, err := b.serializeBoundParams(v.Min)
 		if err != nil {
 			return "", params, err
 		}
-		max, maxParams, err := b.serializeParams(v.Max)
+		max, maxParams, err := b.serializeBoundParams(v.Max)
 		if err != nil {
 			return "", params, err
 		}
@@ -260,14 +260,19 @@ func (b Base) serializeParams(in any) (s string, params []any, err error) {
 		// which might change in the future.
 		return fmt.Sprintf(`"%s"`, string(v)), params, nil
 	case string:
-		// if we have a '*' then we don't want to insert a param
-		if v == "*" {
-			return "'*'", params, nil
-		}
-
-		// escape single quotes with double single quotes
 		return "?", []any{v}, nil
 	default:
 		return "?", []any{v}, nil
 	}
+}
+
+// serializeBoundParams serializes one end of a range. An unbounded end (*) is not a value
+// so it does not become a parameter.
+func (b Base) serializeBoundParams(in any) (s string, params []any, err error) {
+	e, isExpr := in.(*expr.Expression)
+	if isExpr && (e.Op == expr.Literal || e.Op == expr.Wild) && e.Left == "*" {
+		return "'*'", params, nil
+	}
+
+	return b.serializeParams(in)
 }
